@@ -97,7 +97,7 @@ Section SearchCases.
       + replace (len - 1 - last + 1) with (len - last) by lia. exact Efit.
       + left. reflexivity.
     - apply N.leb_gt in Efit. exists (last + num). split; [reflexivity|].
-      apply keep_num. intro Hone. subst num.
+      apply keep_num. intro Hone.
       assert (Hl2 : len = last + 2) by lia.
       replace (len - 1) with (last + 1) in Efit by lia.
       replace (len - last) with 2 in Efit by lia.
@@ -108,9 +108,9 @@ Section SearchCases.
     4096 < off_at offsets (last + new) - off_at offsets last + (new + 1) * bw ->
     search_post bw offsets len last (last + num).
   Proof.
-    intros Hlt Hnofit. apply keep_num. intro Hone. subst num new.
-    pose proof (two_fit ltac:(lia)). replace (2 * 1) with 2 in * by lia.
-    replace (2 + 1) with 3 in Hnofit by lia. lia.
+    intros Hlt Hnofit. apply keep_num. intro Hone.
+    assert (Hn2 : new = 2) by lia. rewrite Hn2 in Hnofit, Hlt.
+    pose proof (two_fit Hlt). replace (2 + 1) with 3 in Hnofit by lia. lia.
   Qed.
 End SearchCases.
 
@@ -130,14 +130,14 @@ Proof.
                                  off_at offsets (i + 1) - off_at offsets i <= 2036)
          by (intros i Hi; subst len; exact (Hok i Hi)).
   - destruct (len <=? last + new) eqn:Eend.
-    + apply N.leb_le in Eend. apply end_case; assumption.
+    + apply N.leb_le in Eend. apply (end_case bw offsets len last num new); assumption.
     + apply N.leb_gt in Eend.
       destruct (off_at offsets (last + new) - off_at offsets last + (new + 1) * bw <=? 4096) eqn:Efit.
       * exfalso. cbn in Hfuel. unfold two64 in *. lia.
       * apply N.leb_gt in Efit. exists (last + num). split; [reflexivity|].
-        eapply nofit_case; eassumption.
+        apply (nofit_case bw offsets len last num new); assumption.
   - destruct (len <=? last + new) eqn:Eend.
-    + apply N.leb_le in Eend. apply end_case; assumption.
+    + apply N.leb_le in Eend. apply (end_case bw offsets len last num new); assumption.
     + apply N.leb_gt in Eend.
       destruct (off_at offsets (last + new) - off_at offsets last + (new + 1) * bw <=? 4096) eqn:Efit.
       * apply N.leb_le in Efit.
@@ -146,7 +146,7 @@ Proof.
         -- right. split; [lia | exact Efit].
         -- rewrite Nat2N.inj_succ, N.pow_succ_r' in Hfuel. lia.
       * apply N.leb_gt in Efit. exists (last + num). split; [reflexivity|].
-        eapply nofit_case; eassumption.
+        apply (nofit_case bw offsets len last num new); assumption.
 Qed.
 
 Lemma search_next_spec : forall bw offsets last,
@@ -192,7 +192,8 @@ Proof.
   assert (Hbody : nlen body = (stop - start + 1) * bw + (off_at offsets stop - off_at offsets start)).
   { unfold body. rewrite nlen_app. f_equal.
     - unfold nlen. rewrite (flat_map_length_const _ (N.to_nat bw)) by (intros; apply le_bytes_length).
-      rewrite map_length, firstn_length, skipn_length. unfold nlen in Hstop. lia.
+      rewrite map_length, firstn_length, skipn_length. unfold nlen in Hstop.
+      rewrite Nat.min_l by lia. rewrite Nat2N.inj_mul, !N2Nat.id. reflexivity.
     - unfold nlen in *. rewrite firstn_length, skipn_length. lia. }
   destruct (next_multiple_bounds (nlen body) bw Hbw) as [Hlo _].
   rewrite nlen_app, <- Hbody. unfold nlen at 2. rewrite repeat_length. unfold nlen in *. lia.
@@ -245,6 +246,7 @@ Proof.
     rewrite Hlog.
     destruct (IH bw offsets data stop Hbw Hok H64 ltac:(unfold n in *; lia) Hdata ltac:(unfold n in *; lia))
       as (buf & cs & Ec & Eok & Esum & Hne).
+    fold n in Eok.
     rewrite Ec.
     exists (binary_chunk_bytes bw offsets data last stop ++ buf), (([u16 padded], k) :: cs).
     split; [reflexivity|]. rewrite Hu.
